@@ -297,6 +297,8 @@ def netlist_cases(draw, max_nodes):
                         desc['order'].append(len(desc['nodes']) - 1)
                         nd['args'][j] = 'n%d' % (len(desc['nodes']) - 1)
                 excluded += 1
+    if draw(st.booleans()):
+        desc['scoped_wire_names'] = True       # inner wires reuse the names of outer wires (legal: names are per block)
     return {'kind': 'netlist', 'desc': desc, 'group': draw(st.integers(0, 5)), 'excluded_known': excluded}
 
 
